@@ -198,11 +198,18 @@ type ErrSpec struct {
 	Details []DetailSpec `json:"details,omitempty"`
 	Meta    []KV         `json:"meta,omitempty"`
 	CtxErr  bool         `json:"ctx_err,omitempty"` // return ctx.Err() (after waiting for ctx.Done)
+	Literal string       `json:"literal,omitempty"` // "canceled" | "deadline": return the context package's sentinel itself
 }
 
 func (e *ErrSpec) Build() error {
 	if e == nil {
 		return nil
+	}
+	switch e.Literal {
+	case "canceled":
+		return context.Canceled
+	case "deadline":
+		return context.DeadlineExceeded
 	}
 	if e.Plain {
 		return errors.New(e.Msg)
@@ -606,6 +613,7 @@ type ClientProg struct {
 }
 
 type OpResult struct {
+	Idx int // index of the program op that produced this result
 	Op  string
 	Err *ErrView
 	Msg *Obs
@@ -640,7 +648,18 @@ func first(msgs []Msg) Msg {
 }
 
 func RunClientWith(ctx context.Context, cl *connect.Client[pingv1.PingRequest, pingv1.PingResponse], kind string, p *ClientProg, cancel context.CancelFunc) *CResult {
+	return RunClientTimed(ctx, cl, kind, p, cancel, time.Time{}, nil)
+}
+
+// RunClientTimed is RunClientWith that also records, for bidi programs, the
+// (virtual) time at which each operation returned.
+func RunClientTimed(ctx context.Context, cl *connect.Client[pingv1.PingRequest, pingv1.PingResponse], kind string, p *ClientProg, cancel context.CancelFunc, start time.Time, times *[]time.Duration) *CResult {
 	res := &CResult{}
+	mark := func() {
+		if times != nil {
+			*times = append(*times, time.Since(start))
+		}
+	}
 	switch kind {
 	case Unary:
 		req := connect.NewRequest(first(p.Msgs).Req())
@@ -693,10 +712,11 @@ func RunClientWith(ctx context.Context, cl *connect.Client[pingv1.PingRequest, p
 	case Bidi:
 		s := cl.CallBidiStream(ctx)
 		ApplyKV(s.RequestHeader(), p.Header)
+		opIdx := 0
 		recvOne := func() bool {
 			m, err := s.Receive()
 			if err != nil {
-				res.Ops = append(res.Ops, OpResult{Op: "recv", Err: ViewErr(err)})
+				res.Ops = append(res.Ops, OpResult{Idx: opIdx, Op: "recv", Err: ViewErr(err)})
 				if errors.Is(err, io.EOF) {
 					res.CleanEnd = true
 				} else if res.Err == nil {
@@ -706,11 +726,12 @@ func RunClientWith(ctx context.Context, cl *connect.Client[pingv1.PingRequest, p
 			}
 			o := ObsRes(m)
 			res.Received = append(res.Received, o)
-			res.Ops = append(res.Ops, OpResult{Op: "recv", Msg: &o})
+			res.Ops = append(res.Ops, OpResult{Idx: opIdx, Op: "recv", Msg: &o})
 			return true
 		}
 		responded := false
-		for _, op := range p.Ops {
+		for i, op := range p.Ops {
+			opIdx = i
 			switch op.Op {
 			case "send":
 				m := Msg{}
@@ -718,13 +739,13 @@ func RunClientWith(ctx context.Context, cl *connect.Client[pingv1.PingRequest, p
 					m = *op.Msg
 				}
 				err := s.Send(m.Req())
-				res.Ops = append(res.Ops, OpResult{Op: "send", Err: ViewErr(err)})
+				res.Ops = append(res.Ops, OpResult{Idx: opIdx, Op: "send", Err: ViewErr(err)})
 				if err != nil {
 					res.SendErrs = append(res.SendErrs, ViewErr(err))
 				}
 			case "closereq":
 				err := s.CloseRequest()
-				res.Ops = append(res.Ops, OpResult{Op: "closereq", Err: ViewErr(err)})
+				res.Ops = append(res.Ops, OpResult{Idx: opIdx, Op: "closereq", Err: ViewErr(err)})
 			case "recv":
 				recvOne()
 			case "recvall":
@@ -732,18 +753,24 @@ func RunClientWith(ctx context.Context, cl *connect.Client[pingv1.PingRequest, p
 				}
 			case "closeresp":
 				err := s.CloseResponse()
-				res.Ops = append(res.Ops, OpResult{Op: "closeresp", Err: ViewErr(err)})
+				res.Ops = append(res.Ops, OpResult{Idx: opIdx, Op: "closeresp", Err: ViewErr(err)})
 				res.CloseErr = ViewErr(err)
 				responded = true
 			case "cancel":
 				if cancel != nil {
 					cancel()
 				}
-				res.Ops = append(res.Ops, OpResult{Op: "cancel"})
+				res.Ops = append(res.Ops, OpResult{Idx: opIdx, Op: "cancel"})
 			case "sleep":
 				time.Sleep(time.Duration(op.D))
-				res.Ops = append(res.Ops, OpResult{Op: "sleep"})
+				res.Ops = append(res.Ops, OpResult{Idx: opIdx, Op: "sleep"})
+			case "cancelafter":
+				if cancel != nil {
+					time.AfterFunc(time.Duration(op.D), cancel)
+				}
+				res.Ops = append(res.Ops, OpResult{Idx: opIdx, Op: "cancelafter"})
 			}
+			mark()
 		}
 		_ = responded
 		res.Header, res.Trailer = s.ResponseHeader().Clone(), s.ResponseTrailer().Clone()
